@@ -1,11 +1,14 @@
 import Sx.Model.Flat
 namespace Flat
-inductive Name | u (n : Nat) | auto (d i : Nat)
+/-- simplex names: `u n` = user atom number n (an opaque hashable Python value), `auto d i` = the generated
+name `f'{d}d{i}'`, `arrow s k u` = the name `f'{s}->{k}d{u}'` made by `_createDisjointRenaming` -/
+inductive Name | u (n : Nat) | auto (d i : Nat) | arrow (base : Name) (k u : Nat)
 deriving Repr, DecidableEq
 
 def Name.str : Name → String
   | .u n => s!"u{n}"
-  | .auto d i => s!"{d}d{i}"
+  | .auto d i => s!"a{d}.{i}"
+  | .arrow b k j => s!"w{k}.{j}.{b.str}"
 
 abbrev C := Cx Name
 
